@@ -7,6 +7,7 @@ import (
 	"os"
 	"os/exec"
 	"path/filepath"
+	"strconv"
 	"strings"
 	"sync"
 	"time"
@@ -212,7 +213,11 @@ func discharge(c *Ctx, i int, fnKey string, tmp string, timeout int) ObResult {
 		q0 := buildQueryOpt(c, i, false, false, true) // quantified assumptions left out: sat of the rest is what the probe looks for
 		f0 := filepath.Join(tmp, fmt.Sprintf("q_%p_%d_v.smt2", c, i))
 		os.WriteFile(f0, []byte(q0), 0o644)
-		res0, out0, dt0 := runSolver(solvers[0], f0, 3)
+		probe := 3
+		if v, err := strconv.Atoi(os.Getenv("GVC_CANARY_SECS")); err == nil && v > 0 {
+			probe = v // (tools/deadreturns.sh: a long look for returns that are dead under the contracts)
+		}
+		res0, out0, dt0 := runSolver(solvers[0], f0, probe)
 		os.Remove(f0)
 		r0.Seconds = dt0
 		r0.QueryLen = len(q0)
